@@ -934,7 +934,7 @@ func TestC01Known_ReadyPreempts(t *testing.T) {
 
 func TestC01Negotiation(t *testing.T) {
 	runs := ev.N(6, 12)
-	ev.Check(t, 4000, 25000, func(rt *rapid.T) {
+	ev.Check(t, 12000, 40000, func(rt *rapid.T) {
 		tc := genCase(rt)
 		nt, classes := classify(tc)
 		ev.Case(nt, tc.String(), classes...)
